@@ -82,6 +82,7 @@ def params_from_cmd(config: Params) -> None:
     param_dict = {}
     # the tests string includes the test restrictions while the vm strings include the ones for the vm variants
     tests_str, nets_str, vm_strs = "", "", {vm: "" for vm in available_vms}
+    explicit_nets = None
 
     # main tokenizing loop
     for cmd_param in config["params"]:
@@ -104,6 +105,11 @@ def params_from_cmd(config: Params) -> None:
             tests_str += "%s %s\n" % (key, value)
         elif key.startswith("only_") or key.startswith("no_"):
             if re.match("(only|no)_nets", key):
+                if explicit_nets is not None and value:
+                    raise ValueError(
+                        f"Cannot specify a nets restriction '{key}={value}' together with "
+                        f"explicit net suffixes, currently also specified '{explicit_nets}'"
+                    )
                 nets_str = (
                     "%s %s\n" % (key.replace("_nets", ""), value) if value else ""
                 )
@@ -113,7 +119,7 @@ def params_from_cmd(config: Params) -> None:
                 )
             else:
                 for vm_name in available_vms:
-                    if re.match(f"(only|no)_{vm_name}", key):
+                    if re.match(f"(only|no)_{vm_name}$", key):
                         # escape defaults for this vm and use the command line
                         use_vms_default[vm_name] = False
                         # main vm restriction part
@@ -146,6 +152,7 @@ def params_from_cmd(config: Params) -> None:
                     f"a nets restriction, currently also specified '{nets_str.rstrip()}'"
                 )
             value = value.replace(",", " ")
+            explicit_nets = value
             param_dict[key] = value
         else:
             # NOTE: comma on the command line is space in a config file
